@@ -18,7 +18,7 @@ func init() {
 		Run:   runC11,
 		Explanation: "Decides clauses C11.1-C11.3 of DESIGN.md: (1) in sync every call whose transitive effect summary contains an API write or an event is dominated by !GetPausedReconcile(set) for the set read from the lister; the helper returns true only for annotations[\"paused-reconcile\"] == \"true\"; the functions that can write are called only from sync (and each other); the pod and set event handlers' effect sets contain no write and no event; the worker's only other effects are queue operations; " +
 			"(2) every pod/claim write of the reconcile function is dominated by set.DeletionTimestamp == nil (shared with C04.3); (3) pod adoption/release require the owner's deletion timestamp to be nil (shared with C10.2) and the revision label-sync and adoption calls are dominated by fresh.UID == set.UID and fresh.DeletionTimestamp == nil for an uncached read of the set. " +
-			"NOT decided: that resuming after a pause converges to the same result (only statelessness, see C02, supports it).",
+			"The pause helper returns false only with a nil annotation map or a missing key (so an annotation \"true\" always pauses). NOT decided: that resuming after a pause converges to the same result (only statelessness, see C02, supports it).",
 	})
 }
 
